@@ -385,6 +385,17 @@ func elemOfDeep(v ssa.Value) (sl, idx ssa.Value, ok bool) {
 						return true
 					}
 				}
+				// an out-parameter: the slot is filled by a call from that call's other operands
+				if ci, isci := u.(ssa.CallInstruction); isci {
+					for _, a := range CallArgs(ci) {
+						if mi, ismi := a.(*ssa.MakeInterface); ismi {
+							a = mi.X
+						}
+						if a != ssa.Value(x) && rec(a, d+1) {
+							return true
+						}
+					}
+				}
 				// element / field slots of a local aggregate (varargs arrays, composite literals)
 				if a, isv := u.(ssa.Value); isv {
 					switch u.(type) {
